@@ -142,7 +142,11 @@ pub fn model_alternatives(s: &Scn) -> Vec<Expect> {
         let mut s2 = s.clone();
         let c = s2.streams.remove(ci);
         s2.streams.insert(0, c);
-        out.extend(alternatives_in_order(&s2));
+        let a = alternatives_in_order(&s2);
+        if a.is_empty() {
+            return Vec::new();
+        }
+        out.extend(a);
     }
     out
 }
@@ -159,7 +163,11 @@ fn alternatives_in_order(s: &Scn) -> Vec<Expect> {
     }
     let mut out = Vec::new();
     let total: usize = choice_points.iter().map(|(_, n)| *n).product::<usize>().max(1);
-    for code in 0..total.min(64) {
+    // more combinations than are worth enumerating: no verdict (an empty list; the caller does not judge the case)
+    if total > 4096 {
+        return Vec::new();
+    }
+    for code in 0..total {
         let mut c = code;
         let mut s2 = s.clone();
         let mut remove: Vec<usize> = Vec::new();
@@ -619,6 +627,10 @@ pub fn run_scn(s: &Scn, merge: &mut Tape, sched: &mut Tape, ctx: &mut Ctx) -> Ve
     let driver_err: Option<ConnInfo> = if s.server { obs.accepts.iter().find_map(|a| a.as_ref().err().cloned()) } else { obs.driver.clone() };
     let shared_state = sh.borrow().clone().expect("shared state");
     let alts = model_alternatives(s);
+    if alts.is_empty() {
+        ctx.class("too_many_reset_alternatives_not_judged");
+        return Ok(());
+    }
     let mut first_err: Option<String> = None;
     let mut matched: Option<(Expect, Vec<&'static str>)> = None;
     for a in &alts {
